@@ -13,7 +13,7 @@ LEVEL = "exploration"
 DESIGN_REF = "DESIGN.md §3 C14"
 RULE = (
     "Hypothesis universes over worlds (<= 6 vertices, <= 10 links of 7 classes: self-loops, parallel and mixed "
-    "edges, edge and vertex subclasses incl. multiply-inheriting ones whose configured ancestor is only on the MRO (not on the first-base chain), isolated members, links leaving the universe) x option tables: '$id' or "
+    "edges, edge and vertex subclasses incl. multiply-inheriting ones whose configured ancestor is only on the MRO (not on the first-base chain) and two distinct vertex classes sharing one __name__, isolated members, links leaving the universe) x option tables: '$id' or "
     "format titles, show_attrs lists, vertex type object/class, per-class arrow ends from PlantUML tokens, "
     "entries for a subclass and/or only its base (MRO resolution), a TwoEndedLink entry so unknown-class links are "
     "renderable, user_render_func variant.  Parse-back oracle: first line @startuml, last @enduml; the multiset "
@@ -65,6 +65,8 @@ def make_options(opt, extra):
         o[C.SubDirected] = dict(zip(("v1side", "v2side"), ARROWS[(extra + 3) % 8]))
         o[C.SubVertex] = {"type": "class", "show_attrs": ["^i$"], "title_format": "$id" if idtitles else "s{i}"}
         o[C.SubOdd] = {"v1side": "+", "v2side": "+"}
+        # a DIFFERENT class with the same __name__ ("SubVertex"), configured differently
+        o[C.SubVertexTwin] = {"type": "object", "show_attrs": ["^i$"], "title_format": "$id" if idtitles else "w{i}"}
     return o, dict(idtitles=idtitles, custom_sub=custom_sub, urf=urf)
 
 
